@@ -2606,9 +2606,12 @@ class EdgeQLSourceGenerator(codegen.SourceGenerator):
         self.write(node.scope.to_edgeql())
         self._write_keywords(' INSERT ')
         self.visit(node.name)
-        self.indentation += 1
-        self._visit_shape(node.shape)
-        self.indentation -= 1
+        if node.shape:
+            self.indentation += 1
+            self._visit_shape(node.shape)
+            self.indentation -= 1
+        else:
+            self.write(' {}')
 
     def visit_ConfigReset(self, node: qlast.ConfigReset) -> None:
         if node.scope == qltypes.ConfigScope.GLOBAL:
